@@ -52,6 +52,13 @@ def configs(tier, seed):
     for lt in REAL:
         for order in ("ab", "ba"):
             out.append(dict(h="definition_system", op=lt, key=f"definition_system/{lt}/set_prms_order={order}", kind="idsm", lt=lt, n=3, order=order))
+    # one lifetime model object held by two stocks: new parameters set through the shared object reach both
+    for lt in REAL:
+        for kb in ("idsm", "sdsm_manual", "sdsm_lapack"):
+            if kb != "idsm" and lt == "FixedLifetime":
+                continue
+            for via in ("caller", "stock_a"):
+                out.append(dict(h="shared_lifetime", op=lt + kb, key=f"shared_lifetime/{lt}/idsm+{kb}/set_prms_via={via}", kind="idsm", kb=kb, lt=lt, via=via, n=3))
     for lt in REAL:
         for iters in ([2, 3] if tier == "quick" else [2, 3, 4]):
             out.append(dict(h="system_loop", op=lt, key=f"system_loop/{lt}/iters={iters}", kind="idsm", lt=lt, iters=iters, n=3))
@@ -121,6 +128,21 @@ def run(cfg, w):
     shape = dims.shape
     if cfg["h"] == "definition_system":
         return _definition_system(cfg, w, dims)
+    if cfg["h"] == "shared_lifetime":
+        P0, P1 = _prms(w, lt, "p0"), _prms(w, lt, "p1")
+        L = getattr(lm, lt)(dims=dims, **P0)
+        kb = cfg["kb"]
+        dA, dB = w.arr("da", shape), w.arr("db", shape)
+        A = dsm.build_stock("idsm", dims, lifetime=L, inflow=dA, name="a")
+        B = dsm.build_stock(kb, dims, lifetime=L, **({"inflow": dB} if kb == "idsm" else {"stock": dB}), name="b")
+        A.compute()
+        _compare(w, "a_first", _results(A), _fresh("idsm", dims, lt, P0, dA))
+        (L if cfg["via"] == "caller" else A.lifetime_model).set_prms(**P1)
+        B.compute()
+        _compare(w, "b_after_new_parameters", _results(B), _fresh(kb, dims, lt, P1, dB))
+        A.compute()
+        _compare(w, "a_after_new_parameters", _results(A), _fresh("idsm", dims, lt, P1, dA))
+        return
     if cfg["h"] == "history":
         kinds_cycle = ["scalar", "array"] if cfg.get("first") == "scalar" else ["array", "scalar"] if cfg.get("first") else ["scalar"]
         nset = [0]
